@@ -393,6 +393,12 @@ func c15SSH(c *Ctx, pxs []*c15Proxier) {
 				}
 			}
 		}
+		if bad == "" {
+			// re-slices of the buffer (p[:n]) handed on or filtered in place
+			if w := writesThroughSlice(p, fn, buf, inner, 0); w != "" {
+				bad = "the recorder modifies the relayed buffer: " + w
+			}
+		}
 		if inner == nil && bad == "" {
 			bad = "the wrapped stream's " + m + " is not called with the caller's buffer"
 		}
